@@ -8,7 +8,7 @@ for D in seeded/${1:-}*/; do
   if grep -q '"not_reported": true' $D/meta.json; then echo "$N: (stored as not reported)"; continue; fi
   CHECKS=$P
   case $N in
-    C12-r2-*) CHECKS="C12 C08";; C13-r2-*) CHECKS="C08";; C01-r2-*) CHECKS="C01 C10";; C15-r3-*) CHECKS="C06";; C18-r5-*) CHECKS="C18 C16";; C07-r4-*) CHECKS="C07 C08";; C03-r6-*) CHECKS="C03 C11";; C05-r6-*) CHECKS="C10";; C04-r7-*) CHECKS="C06";; C05-r7-*) CHECKS="C05 C07";; C02-r9-*) CHECKS="C06";; C05-r9-*) CHECKS="C09";;
+    C12-r2-*) CHECKS="C12 C08";; C13-r2-*) CHECKS="C08";; C01-r2-*) CHECKS="C01 C10";; C15-r3-*) CHECKS="C06";; C18-r5-*) CHECKS="C18 C16";; C07-r4-*) CHECKS="C07 C08";; C03-r6-*) CHECKS="C03 C11";; C05-r6-*) CHECKS="C10";; C04-r7-*) CHECKS="C06";; C05-r7-*) CHECKS="C05 C07";; C02-r9-*) CHECKS="C06";; C01-r10-*) CHECKS="C06";; C03-r10-*) CHECKS="C13";; C05-r9-*) CHECKS="C09";;
   esac
   WT=/tmp/sa-$$-$P
   git -C /repo worktree add -q --detach $WT HEAD || { echo "$N: WORKTREE-FAILED"; continue; }
